@@ -1261,7 +1261,71 @@ fn write_evidence(
         "C05" | "C16" | "C18" => "fault_enumeration",
         _ => "exploration",
     };
-    let zero_probes: Vec<&String> = vec![];
+    // probes this check is expected to hit (DESIGN section 5); any that stayed at zero is
+    // reported, so that a workload that stopped reaching a branch is noticed
+    let expected: &[&str] = match cfg.id {
+        "C05" | "C11" | "C15" => &[
+            "resume_retry",
+            "resume_next_after_last_statement_of_block",
+            "error_in_subprogram_handled_in_main",
+            "call_depth_2_or_more",
+            "handler_re_armed_or_replaced",
+            "on_error_goto_0",
+            "on_error_goto_0_inside_handler",
+            "on_error_in_subprogram",
+            "on_error_resume_next_skip",
+            "resume_label",
+            "resume_label_out_of_subprogram",
+            "return_without_gosub",
+            "return_label",
+            "resume_without_error",
+            "gosub_nested",
+            "goto_out_of_for",
+            "goto_out_of_for_step",
+            "goto_out_of_select",
+            "error_with_operand_saved_on_stack",
+            "print_abandoned_after_first_item",
+            "print_failed_by_fault",
+            "transparent_fault_absorbed",
+        ],
+        "C16" => &[
+            "comma_at_column_13",
+            "comma_at_zone_boundary",
+            "comma_at_column_15",
+            "print_trailing_separator",
+            "string_with_embedded_cr_lf",
+            "print_failed_by_fault",
+            "column_known_after_failed_print",
+            "print_on_desynced_device",
+            "device_resynced_at_line_end",
+            "transparent_fault_absorbed",
+            "append_to_existing_file",
+        ],
+        "C18" => &[
+            "open_on_handle_in_use",
+            "open_missing_input_file",
+            "open_name_that_cannot_be_created",
+            "open_refused_by_fault",
+            "append_to_existing_file",
+            "input_past_end",
+            "input_from_closed_handle",
+            "input_from_handle_in_wrong_mode",
+            "print_to_closed_handle",
+            "print_to_handle_in_wrong_mode",
+            "get_after_put_same_record",
+            "put_with_other_records_present",
+            "same_file_open_on_two_writing_handles",
+            "stdin_eof_injected",
+            "input_failed_by_fault",
+            "simfs_vs_real_fs_histories_compared",
+        ],
+        _ => &[],
+    };
+    let zero_probes: Vec<String> = expected
+        .iter()
+        .filter(|p| agg.probes.get(**p).copied().unwrap_or(0) == 0)
+        .map(|p| p.to_string())
+        .collect();
     let ev = json!({
         "property_id": cfg.id,
         "tier": cfg.tier,
